@@ -233,6 +233,36 @@ fn check_written_order(order: &[(String, String)]) -> Result<(), String> {
     Ok(())
 }
 
+/// give the first MODULE that has an A2ML block a small definition and module-level IF_DATA that
+/// conforms to it, one block in front of the A2ML block and one behind it
+fn plant_ifdata_around_a2ml(doc: &mut vcommon::doc::Doc) -> bool {
+    use vcommon::doc::{Child, Elem, Tok, Val, TK};
+    let project = doc.project_mut();
+    for c in &mut project.children {
+        let Child::Elem(module) = c else { continue };
+        if module.tag != "MODULE" {
+            continue;
+        }
+        // module-level IF_DATA of the generator would be uninterpreted noise next to the planted ones
+        let Some(pos) = module.children.iter().position(|k| matches!(k, Child::Elem(e) if e.tag == "A2ML")) else {
+            continue;
+        };
+        let text = "\n  block \"IF_DATA\" taggedunion { \"PLANTED\" struct { uint; char[8]; }; };\n".to_string();
+        if let Child::Elem(a) = &mut module.children[pos] {
+            a.params = vec![Tok { kind: TK::A2ml, text: text.clone(), val: Val::Raw(text) }];
+        }
+        let mk = |v: i128, s: &str| {
+            let mut e = Elem::new("IF_DATA", true, false);
+            e.params = vec![Tok::word(TK::Ident, "PLANTED"), Tok::int(v, format!("{v}")), Tok::string(s, format!("\"{s}\""))];
+            Child::Elem(e)
+        };
+        module.children.insert(pos + 1, mk(2, "behind"));
+        module.children.insert(pos, mk(1, "before"));
+        return true;
+    }
+    false
+}
+
 pub fn run(args: &Args, rec: &mut Recorder) {
     rec.rule = "evaluation = one loaded document sorted with sort(): every list must hold the same elements with equal content (by name lookup and PartialEq), singletons unchanged, lists ascending by name with a coherent name index; the written text must list the module-level elements grouped by kind and ascending by name; load(write(sorted)) must equal the sorted model including list order; sorting twice must give the same text. distinct_nontrivial = distinct input texts by content hash".into();
     rec.assumptions.push("names are duplicate-free per list (generator); module-level comments are dropped by sort() by design and are not judged".into());
@@ -260,6 +290,15 @@ pub fn run(args: &Args, rec: &mut Recorder) {
             if project.children.len() > 1 && rng.coin() {
                 rng.shuffle(&mut project.children);
                 rec.bump("docs.with_shuffled_project_children");
+            }
+        }
+        // "any original order": IF_DATA that conforms to the A2ML block of its module, standing in
+        // front of that block (and behind it)
+        let mut planted = false;
+        if rng.chance(1, 8) {
+            planted = plant_ifdata_around_a2ml(&mut doc);
+            if planted {
+                rec.bump("docs.with_conforming_if_data_in_front_of_the_a2ml_block");
             }
         }
         let lc = if rng.coin() { LayoutCfg::wide(rng) } else { LayoutCfg::c05(rng) };
@@ -365,6 +404,23 @@ pub fn run(args: &Args, rec: &mut Recorder) {
                 if mr != ms && n1 == n2 {
                     // the known C01 finding (RESERVED items written in position order), not sort()'s business
                     rec.bump("reload_differs_only_in_RESERVED_order(C01 finding)");
+                } else if mr != ms && planted && {
+                    // does the difference lie in the interpretation of IF_DATA only?
+                    let strip = |f: &a2lfile::A2lFile| {
+                        let mut f = f.clone();
+                        for md in f.project.module.iter_mut() {
+                            md.if_data.clear();
+                        }
+                        crate::c01::normalise_reserved(&mut f);
+                        f
+                    };
+                    strip(&mr) == strip(&ms)
+                } {
+                    rec.violation(
+                        "sort(): reloaded model differs from the sorted model [IF_DATA in front of the A2ML block that describes it]",
+                        &crate::c01::model_diff(&ms, &mr),
+                        witness_text("C14", &text, ""),
+                    );
                 } else if mr != ms {
                     rec.violation(
                         "sort(): reloaded model differs from the sorted model",
@@ -398,6 +454,7 @@ pub fn run(args: &Args, rec: &mut Recorder) {
         None
     });
     rec.floor("modules.1", 5);
+    rec.floor("docs.with_conforming_if_data_in_front_of_the_a2ml_block", 5);
     rec.floor("modules.2", 5);
     rec.floor("elements_compared", 1000);
     rec.floor("written_elements_checked", 1000);
